@@ -121,7 +121,7 @@ pub fn run(args: &Args) -> ! {
         }
     }
     let n = ctx.tier.pick(400, 6_000);
-    let opts = GenOpts::default();
+    let opts = GenOpts { big: true, ..GenOpts::default() };
     let tapes = pt::draw(ctx.seed, "c10", &(prop::collection::vec(any::<u32>(), 0..500), 0u8..3), n);
     let tapes = &tapes;
     let opts_ref = &opts;
